@@ -168,4 +168,56 @@ theorem inFrag_mono {k k' : Nat} (hk : k ≤ k') {TPx : TP} {ti : TreeInfo} {t :
   simp only [InFrag, Bool.and_eq_true, decide_eq_true_eq, Bool.not_eq_true', beq_iff_eq] at h ⊢
   exact ⟨⟨⟨h.1.1.1, by omega⟩, h.1.2⟩, h.2⟩
 
+/-! ## concrete instances for the non-vacuity examples of Props/C01 -/
+
+/-- the translation parameters of the examples: .NET reading of `\Z`, sets read by `readSet` without named classes -/
+def ccTP : TP := { strict := false, rd := readSet [] }
+
+def ccInfo (captop : Int) : TreeInfo := { captop := captop, capnumlist := none, caps := [], rtl := false }
+
+def ccSe (text : List Nat) : Spec.Env := { text := text, textstart := 0, named := [], word := [], fold := [] }
+
+/-- interpreter oracles computed from the specification's environment (what `EnvRel` demands) -/
+def ccEnv (sets : List (List Nat)) (se : Spec.Env) : VM.Env :=
+  { text := se.text.toArray, textstart := se.textstart,
+    setMem := fun k r =>
+      match readSet [] (sets.getD k []) with
+      | some c => c.mem se false r
+      | none => false,
+    toLower := id, wordChar := se.isWord, ecmaWordChar := fun _ => false, endzStrict := false, ecma := false }
+
+theorem ccRel (sets : List (List Nat)) (se : Spec.Env) : EnvRel ccTP sets (ccEnv sets se) se := by
+  refine ⟨rfl, rfl, fun _ => rfl, rfl, ?_⟩
+  intro k s c hk hc r
+  have hc' : readSet [] s = some c := hc
+  simp [ccEnv, hk, hc']
+
+/-- what an attempt of the emitted program reports: matched?, final text position, live prefix of every capture array -/
+def ccRun (ti : TreeInfo) (t : GoNode) (env : VM.Env) (i : Nat) (fuel : Nat) : Option (Bool × Int × List (List Int)) :=
+  match VM.init (emit ti t) (i : Int) with
+  | .ok s0 =>
+    match (VM.run (emit ti t) env fuel s0).1 with
+    | .done s => some (VM.matched s, s.textpos,
+        (List.range (capsize ti)).map (fun c => (MatchBuilder.arr s.cap.m c).take (2 * MatchBuilder.cnt s.cap.m c)))
+    | _ => none
+  | .error _ => none
+
+/-- `(a|ab)(c|bcd)` -/
+def ccT1 : GoNode :=
+  .capture 0 (-1) (.concat [.capture 1 (-1) (.alt [.char opOne false false 97, .multi false false [97, 98]]),
+    .capture 2 (-1) (.alt [.char opOne false false 99, .multi false false [98, 99, 100]])])
+
+/-- `a*ab` -/
+def ccT2 : GoNode := .capture 0 (-1) (.concat [.charloop opOneloop false false 97 0 maxInt32, .multi false false [97, 98]])
+
+/-- `(?>a+)b` -/
+def ccT3 : GoNode :=
+  .capture 0 (-1) (.concat [.atomic (.charloop opOneloop false false 97 1 maxInt32), .char opOne false false 98])
+
+/-- the payload of `[a-z]` as leg Wr sends it: hash bytes, then the raw range section -/
+def ccAZ : List Nat := [0, 1, 0, 0, 0, 0, 0, 0, 0, 97, 122, 2097152, 97, 122]
+
+/-- `(?=a)[a-z]` -/
+def ccT4 : GoNode := .capture 0 (-1) (.concat [.poslook (.char opOne false false 97), .set false false ccAZ])
+
 end RegexVerif.Compile
